@@ -488,6 +488,15 @@ fn gen_c10(rng: &mut Rng, _thorough: bool) -> Case {
         let when = if rng.pct(50) { When::Abs(unit * rng.range(1, 6)) } else { When::Rel(unit * rng.range(1, 6)) };
         script.push(Cmd::Sched { target: rng.usize(n) as u16, kind: rng.below(kinds) as u8, when, mode, via: Via::Direct });
     }
+    // In half of the cases one model schedules a periodic series on itself during `init`, on the
+    // same time grid: occurrences of different origins (the global scheduler and that model)
+    // coincide, so that a step handles several origins at one time stamp.
+    if rng.pct(50) {
+        let j = rng.usize(n);
+        let period = unit * rng.range(1, 4);
+        let mode = if rng.pct(50) { Mode::KeyedPeriodic(3, period) } else { Mode::Periodic(period) };
+        c.nodes[j].init.push(Op::Sched { kind: rng.below(kinds) as u8, when: When::Rel(unit * rng.range(1, 6)), mode });
+    }
     let horizon = rng.range(6, 30);
     let cancel_at = if rng.pct(50) { Some((rng.range(1, horizon - 1), rng.below(series) as u8)) } else { None };
     c.script = script;
